@@ -589,6 +589,20 @@ def vectors_case(ctx, case):
             chk('floordiv', A // k, tuple(x // k for x in a), ca)
         if not isinstance(repr(A), str) or type(A).__name__ not in repr(A):
             ctx.fail('vectors', 'V-repr', case, repr(A))
+        # the vector types are tuples of their components: they compare,
+        # hash and collect like those tuples, whichever vector class each
+        # operand has
+        same = a == b
+        if (A == B) is not same or (A != B) is not (not same) or \
+                (ca(*b) == A) is not same:
+            ctx.fail('vectors', 'V-eq', case, (A == B, A != B), same)
+        if (A == a) is not True or (a == A) is not True or (A != a):
+            ctx.fail('vectors', 'V-eq-tuple', case)
+        if hash(A) != hash(a) or (same and hash(A) != hash(B)):
+            ctx.fail('vectors', 'V-hash', case, (hash(A), hash(B)),
+                     hash(a))
+        if len({A, B, ca(*b)}) != len({a, b}) or A not in {a: 1}:
+            ctx.fail('vectors', 'V-set', case)
     except (OverflowError, ZeroDivisionError):
         return
     except Exception as e:
